@@ -41,7 +41,7 @@ pub fn tokens_to_line(tokens: &Tokens) -> String {
 
 /// Trim the blanks around one command of a line, keeping a trailing blank
 /// that is escaped with a backslash (e.g. `echo foo\ `).
-fn trim_cmd(token: &str) -> String {
+pub fn trim_cmd(token: &str) -> String {
     let t = token.trim_start();
     let trimmed = t.trim_end();
     if trimmed.len() < t.len() {
